@@ -440,10 +440,9 @@ def rewrite_body(text, rules_log, intended_panics=False, keep_asserts=False):
                         args = toks[k + 1:close]
                         cond = _first_arg(args)
                         rules_log.append(("R5", norm("".join(x.text for x in toks[i:close + 1]))))
-                        out.append(Tok("ident", "assert", t.pos))
-                        out.append(Tok("punct", "(", t.pos))
+                        out.append(Tok("ident", "{ let r5_c: bool = ", t.pos))
                         out.extend(cond)
-                        out.append(Tok("punct", ")", t.pos))
+                        out.append(Tok("punct", "; assert(r5_c); }", t.pos))
                         i = close + 1
                         continue
                     if name in ("assert_eq", "assert_ne", "debug_assert_eq") and not keep_asserts:
@@ -452,9 +451,9 @@ def rewrite_body(text, rules_log, intended_panics=False, keep_asserts=False):
                         b = _first_arg(rest)
                         rules_log.append(("R5", norm("".join(x.text for x in toks[i:close + 1]))))
                         op = "!=" if name == "assert_ne" else "=="
-                        out.append(Tok("ident", "assert", t.pos)); out.append(Tok("punct", "(", t.pos))
-                        out.extend(a); out.append(Tok("punct", " " + op + " ", t.pos)); out.extend(b)
-                        out.append(Tok("punct", ")", t.pos))
+                        out.append(Tok("ident", "{ let r5_a = &(", t.pos)); out.extend(a)
+                        out.append(Tok("punct", "); let r5_b = &(", t.pos)); out.extend(b)
+                        out.append(Tok("punct", "); assert(*r5_a " + op + " *r5_b); }", t.pos))
                         i = close + 1
                         continue
                     if name in ("panic", "unreachable", "unimplemented", "todo"):
@@ -480,6 +479,19 @@ def rewrite_body(text, rules_log, intended_panics=False, keep_asserts=False):
                         out.append(Tok("ident", "vunwrap_or_panic()" if intended_panics else "vunwrap_or_vpanic()", t.pos))
                         i = close + 1
                         continue
+        # R14: a datatype constructor used as a function value, `.map(Some)` -> eta-expanded closure with its spec
+        if t.kind == "ident" and t.text in ("map", "map_err") and _prev_sig(toks, i - 1) >= 0 and toks[_prev_sig(toks, i - 1)].text == ".":
+            j = _next_sig(toks, i + 1)
+            if j < n and toks[j].text == "(":
+                close = match_close(toks, j)
+                inner = [x for x in toks[j + 1:close] if x.kind not in ("ws", "comment")]
+                if len(inner) == 1 and inner[0].text in ("Some", "Ok", "Err"):
+                    c = inner[0].text
+                    ty = "Option<_>" if c == "Some" else "Result<_, _>"
+                    rules_log.append(("R14", f".{t.text}({c}) -> .{t.text}(|v| {c}(v)) with `ensures o == {c}(v)`"))
+                    out.append(Tok("ident", f"{t.text}(|v| -> (o: {ty}) ensures o == {c}(v) {{ {c}(v) }})", t.pos))
+                    i = close + 1
+                    continue
         # R10: closure parameter `_`
         if t.kind == "punct" and t.text == "|":
             j = _next_sig(toks, i + 1)
